@@ -22,7 +22,7 @@ def simpson_nodes(n=40001):
 FAMILIES = ["gauss", "wall", "bimodal", "periodic", "reflective", "exp-prior", "zero-region", "narrow", "mixed"]
 
 
-def make_cell(seed, family=None, kernel=None, clustering=None, resample=None, d=None, N=64, vv=None):
+def make_cell(seed, family=None, kernel=None, clustering=None, resample=None, d=None, N=64, vv=None, mode="vector"):
     rng = np.random.default_rng(seed)
     fam = family or FAMILIES[int(rng.integers(0, len(FAMILIES)))]
     d = d or int(rng.integers(1, 3))
@@ -89,7 +89,7 @@ def make_cell(seed, family=None, kernel=None, clustering=None, resample=None, d=
         uz = float(rng.uniform(0.2, 0.6))
         centre[0] = float(rng.uniform(uz + 0.05, 0.9))
         zero_below = uz
-    spec = {"d": d, "kinds": kinds, "a": a, "b": b, "centre": centre, "width": width, "mode": "vector", "zero_below": zero_below,
+    spec = {"d": d, "kinds": kinds, "a": a, "b": b, "centre": centre, "width": width, "mode": mode, "zero_below": zero_below,
             "zero_coord": 0, "shift": 0.0, "mix": mix, "lkind": lkind}
     return {"family": fam, "target": spec, "kernel": kernel, "clustering": clustering, "resample": resample, "N": int(N),
             "periodic": periodic, "reflective": reflective, "seed": int(seed), "vv": vv}
